@@ -6,13 +6,13 @@ CONSTANTS
   CapRes = 1
   Kinds = {"distinct", "lookup1", "count", "limit", "both", "agg"}
   MaxStages = 3
-  Ns = {1, 5}
+  Ns = {1, 4}
   Fs = {1, 2}
   Ks = {99, 1}
   LimitL = 1
   AggA = 2
   BothDrain = "concurrent"
-  MaxWork = 60
+  MaxWork = 24
   Reduce = TRUE
   Survey = FALSE
 INIT Init
